@@ -48,7 +48,7 @@ def state_ok(d):
                 break
     if not why and d.desc_is_flawed != (len(d.e_flags) > 0):
         why = 'desc_is_flawed does not agree with the error flags'
-    if not why and any(t.trs_is_error() for t in d.tracts) and not d.e_flags:
+    if not why and any(('XXXz' in t.trs or t.trs.endswith('XX')) for t in d.tracts) and not d.e_flags:
         why = 'a tract has an undecipherable Twp/Rge/Sec but there is no error flag'
     return why
 
